@@ -35,7 +35,8 @@ pub fn run(seed: u64, n: usize, outdir: &str, _corpus: Option<&str>) -> std::io:
     for _ in 0..n {
         let sub = master.next();
         let mut rng = Rng(sub);
-        let nt = 1 + rng.below(5) as usize;
+        let ntmax = if rng.chance(1, 3) { 10 } else { 5 };
+        let nt = 1 + rng.below(ntmax) as usize;
         let tpls: Vec<(Vec<Piece>, Vec<Piece>)> = (0..nt).map(|p| (gen_tpl(&mut rng, &format!("B{}:", p)), gen_tpl(&mut rng, ""))).collect();
         let mut feature_def = String::from("# generated\nUNIGRAM U0:%F[0]\nUNIGRAM U1:%F[0],%F?[1]/%t\n");
         for (l, r) in &tpls { feature_def.push_str(&format!("BIGRAM {}/{}\n", render_tpl(l, 'L'), render_tpl(r, 'R'))); }
